@@ -573,9 +573,9 @@ def reaches_write(fb, b, seen=None):
         nm = mir.callee_name(fn) if fn else ''
         if fn and (is_shm_write(fn['path']) or is_shm_write(nm)):
             return True
-        nb = fb.body(nm)
-        if nb is not None and reaches_write(fb, nb, seen):
-            return True
+        for nb in (common.callee_bodies(fb, fn) if fn else []):      # (through private traits: every implementation)
+            if reaches_write(fb, nb, seen):
+                return True
     return False
 
 
